@@ -57,7 +57,12 @@ FullCases == [strict : BOOLEAN, kind : {"geth-light"}, local : [Slots -> Locals]
 -----------------------------------------------------------------------------
 (* C20 *)
 InitLife(interval) == [running |-> FALSE, t0 |-> 0, updates |-> 0, connects |-> 0, failat |-> 0, since |-> 0,
-                       waitq |-> <<>>, now |-> 0, interval |-> interval, loops |-> 0]
+                       waitq |-> <<>>, now |-> 0, interval |-> interval, loops |-> 0,
+                       early |-> 0, got |-> <<>>]      \* callers already blocked in Wait; what they have been handed
+
+\* the loop ended with result x: a caller already waiting gets it at once, otherwise it is kept for the next Wait
+Ended(L, x) == IF L.early > 0 THEN [L EXCEPT !.running = FALSE, !.early = L.early - 1, !.got = Append(L.got, x)]
+               ELSE [L EXCEPT !.running = FALSE, !.waitq = Append(L.waitq, x)]
 
 StartF(L, connectfail, failat) ==
     IF L.running THEN [st |-> L, r |-> "already"]
@@ -75,12 +80,12 @@ Ticks(L, until) ==
          IF next > until THEN L
          ELSE LET L1 == [L EXCEPT !.now = next, !.updates = L.updates + 1, !.since = L.since + 1] IN
               IF L1.failat # 0 /\ L1.since = L1.failat
-              THEN [L1 EXCEPT !.running = FALSE, !.waitq = Append(L1.waitq, "err")]   \* the loop ends, Wait reports it
+              THEN Ended(L1, "err")                                                   \* the loop ends, Wait reports it
               ELSE Ticks(L1, until)
 
 SleepF(L, d) == [Ticks(L, L.now + d) EXCEPT !.now = L.now + d]
 
-StopF(L) == [L EXCEPT !.running = FALSE, !.waitq = Append(L.waitq, "nil")]
+StopF(L) == Ended(L, "nil")
 
 ForceF(L) == [L EXCEPT !.updates = L.updates + 1, !.since = L.since + 1]
 =============================================================================
